@@ -2,7 +2,7 @@
     Statements only; proofs in Run/RunProofs.v, Run/RunCounters.v, Match/CoreProofs.v. *)
 From Coq Require Import ZArith List Bool.
 From V Require Import Csv.CsvModel Data.DataModel Scan.ScanModel Scan.ScanSpec Run.RunLoop Run.RunProofs Run.RunCounters
-  Match.Adjudicate Match.Core Match.CoreProofs.
+  Match.Adjudicate Match.Core Match.CoreProofs Match.AggProofs.
 Import ListNotations.
 Open Scope Z_scope.
 
@@ -19,7 +19,7 @@ Print Assumptions C03_match_count.
 (** the state after a line is the left-to-right fold of the components' effects: an assignment sees the
     values earlier components of the same line wrote *)
 Theorem C03_state_is_fold : forall q blanks AND cs e s l, stopped mx s = false -> (oeqb e (pln mx s) && is_nil l) = false ->
-  fst (core_m q blanks AND cs e s l) = fst (seq_eval cst comp (fun c s => eval q blanks AND c s l) AND cs s (negb AND)).
+  fst (core_m q blanks AND cs e s l) = fst (seq_eval cst comp (fun c s => eval q blanks AND c s l) AND cs (ensure cs s) (negb AND)).
 Proof. intros. rewrite core_line_vote by assumption. reflexivity. Qed.
 Print Assumptions C03_state_is_fold.
 
@@ -35,10 +35,82 @@ Proof. intros. repeat split. Qed.
 
 (** push appends, pop removes exactly the top (clean model); D4 (fixed in /repo): pop dropped two *)
 Theorem C03_pop_drops_two_refuted :
-  let s := with_mx (rs0 mx (mkMx [] [])) (mkMx [] [(1, [VI 1; VI 2; VI 3])]) in
-  lookup 1 (stacks (x mx (do_action (mkQ false false true) [] s [] (Pop 9 1)))) = Some [VI 1] /\
-  lookup 1 (stacks (x mx (do_action clean [] s [] (Pop 9 1)))) = Some [VI 1; VI 2].
+  let s := with_mx (rs0 mx (mkMx [] [] [])) (mkMx [] [(1, [VI 1; VI 2; VI 3])] []) in
+  lookup 1 (stacks (x mx (do_action (mkQ false false true) [] true s [] (Pop 9 1)))) = Some [VI 1] /\
+  lookup 1 (stacks (x mx (do_action clean [] true s [] (Pop 9 1)))) = Some [VI 1; VI 2].
 Proof. exact pop_drops_two_refuted. Qed.
+
+(** count() is the number of matches so far plus this line *)
+Theorem C03_count_function : forall blanks s l, neval blanks s l NCount = (match_count mx s + 1, 1).
+Proof. reflexivity. Qed.
+
+(** first(): a first sighting records this line and votes; a later sighting changes nothing and does not vote *)
+Theorem C03_first_step : forall blanks AND s l nm i,
+  let key := hdr_key l i in
+  let r := do_agg blanks AND s l (First nm i) in
+  match dget (x mx s) nm key with
+  | Some (VI z) => fst r = s /\ snd r = false
+  | None => dget (x mx (fst r)) nm key = Some (VI (pln mx s)) /\ snd r = true
+  | _ => True
+  end.
+Proof. intros blanks AND. exact (first_step blanks AND). Qed.
+Print Assumptions C03_first_step.
+
+(** ... and the line recorded for a value's first sighting never changes for the rest of the run: any
+    further records, any scan, any entry point and budget, any other components (which may write any
+    other variable), as long as no other function or assignment of the csvpath names the same dictionary *)
+Theorem C03_first_sighting_stable : forall q AND cs (e : option Z) blanks (c : cfg) s0 bud (recs : list (line ustring)) nm key z,
+  Forall (first_owns nm) cs -> dget (x mx s0) nm key = Some (VI z) ->
+  dget (x mx (st ustring mx (run_from ustring mx (core_m q blanks AND cs e) c s0 bud recs))) nm key = Some (VI z).
+Proof. exact first_sighting_stable. Qed.
+Print Assumptions C03_first_sighting_stable.
+
+(** tally(), every(), counter(), sum(), subtotal(), "@name.key = e": what one evaluation writes, and what it leaves alone *)
+Theorem C03_tally_step : forall blanks AND s l i,
+  let d := 100 + Z.of_nat i in let key := hdr_key l i in let m' := x mx (fst (do_agg blanks AND s l (Tally i))) in
+  dget m' d key = Some (VI (num_of (dget (x mx s) d key) + 1)) /\
+  (forall key', key <> key' -> dget m' d key' = dget (x mx s) d key') /\
+  (forall d' key', d <> d' -> dget m' d' key' = dget (x mx s) d' key') /\
+  vars m' = vars (x mx s) /\ stacks m' = stacks (x mx s) /\ snd (do_agg blanks AND s l (Tally i)) = true.
+Proof. exact tally_step. Qed.
+Theorem C03_every_step : forall blanks AND s l nm i n,
+  let key := hdr_key l i in let r := do_agg blanks AND s l (Every nm i n) in
+  dget (x mx (fst r)) nm key = Some (VI (num_of (dget (x mx s) nm key) + 1)) /\
+  snd r = ((num_of (dget (x mx s) nm key) + 1) mod n =? 0) /\
+  (forall key', key <> key' -> dget (x mx (fst r)) nm key' = dget (x mx s) nm key').
+Proof. exact every_step. Qed.
+Theorem C03_counter_step : forall blanks AND s l nm k,
+  let r := do_agg blanks AND s l (Counter nm k) in
+  lookup nm (vars (x mx (fst r))) = Some (VI (num_of (lookup nm (vars (x mx s))) + k)) /\
+  (forall v, nm <> v -> lookup v (vars (x mx (fst r))) = lookup v (vars (x mx s))) /\
+  dicts (x mx (fst r)) = dicts (x mx s) /\ stacks (x mx (fst r)) = stacks (x mx s).
+Proof. exact counter_step. Qed.
+Theorem C03_sum_step : forall blanks AND s l nm e,
+  let r := do_agg blanks AND s l (Sum nm e) in
+  lookup nm (vars (x mx (fst r))) = Some (VF (num_of (lookup nm (vars (x mx s))) + fst (neval blanks s l e))) /\
+  (forall v, nm <> v -> lookup v (vars (x mx (fst r))) = lookup v (vars (x mx s))).
+Proof. exact sum_step. Qed.
+Theorem C03_subtotal_step : forall blanks AND s l nm i e,
+  let key := hdr_key l i in let r := do_agg blanks AND s l (Subtotal nm i e) in
+  dget (x mx (fst r)) nm key = Some (VF (num_of (dget (x mx s) nm key) + fst (neval blanks s l e))) /\
+  (forall key', key <> key' -> dget (x mx (fst r)) nm key' = dget (x mx s) nm key').
+Proof. exact subtotal_step. Qed.
+Theorem C03_assign_key_step : forall blanks AND s l nm key e,
+  let r := do_agg blanks AND s l (AssignK nm key e) in
+  dget (x mx (fst r)) nm key = Some (nvalue blanks s l e) /\
+  (forall key', key <> key' -> dget (x mx (fst r)) nm key' = dget (x mx s) nm key').
+Proof. exact assign_key_step. Qed.
+Print Assumptions C03_tally_step.
+
+Example C03_bookkeeping_nonvacuous :
+  (* [ tally(#1)  first.d7(#1)  counter.v8(2)  sum.v9(#0)  @d5.tot = count() ] over 3, 5, 3 (column 0) / a, b, a (column 1) *)
+  let prog := [CAgg (Tally 1); CAgg (First 7 1); CAgg (Counter 8 2); CAgg (Sum 9 (NHdr 0)); CAct (Agg (AssignK 5 [116] NCount))] in
+  let rows := [[[110]; [116]]; [[51]; [97]]; [[53]; [98]]; [[51]; [97]]] in
+  let o := core_run clean true false (mkSc [] (Some 1) None true) prog rows in
+  dicts (x mx (st ustring mx o)) = [(101, [([97], VI 2); ([98], VI 1)]); (7, [([97], VI 1); ([98], VI 2)]); (5, [([116], VI 3)])] /\
+  vars (x mx (st ustring mx o)) = [(8, VI 6); (9, VF 11)] /\ match_count mx (st ustring mx o) = 2 /\
+  Forall (first_owns 7) prog.
+Proof. cbn zeta. repeat split; try (vm_compute; reflexivity). repeat constructor; unfold first_owns; cbn [comp_agg writes]; try discriminate; try exact I. Qed.
 
 Example C03_nonvacuous :
   (* [ @v = #1  @w = add(@v, 1)  push("k", @w)  gt(#1, 5) -> @p = pop("k") ] *)
